@@ -25,31 +25,28 @@ Proof. reflexivity. Qed.
 
 (* From the blocks of a note to its tree: [spec_tree key bs] is the tree the blocks determine
    (SectionsSpec.v; compared with the transliterated builder and through it with the
-   implementation on every run).  For every list of blocks of any length and nesting in which no
-   list item starts with a code block, quote, table or rule, or starts with a list and holds
-   further blocks, the tree says what the blocks say: every block's content (its line of
-   inlines, its code body, its rule, its table cells; an item's lead text as the item's line)
-   occurs exactly once and in document order. *)
+   implementation on every run).  For EVERY list of blocks of any length and nesting the tree says
+   what the blocks say: every block's content (its line of inlines, its code body, its rule, its
+   table cells; an item's lead text as the item's line, an empty line for an item that does not
+   start with text) occurs exactly once and in document order.
+   (Before the builder repair of F-LEADPANIC / F-ITEMLEAD: only for lists in which no item starts
+   with a code block, quote, table or rule, or starts with a list and holds further blocks.) *)
 Theorem C01_tree_conserves :
   forall (key : string) (bs : list dblock),
-    Forall (fun b => plain_items b = true) bs ->
     tcontent (key_parent key) (spec_tree key bs) = bscontent (key_parent key) bs.
 Proof. exact spec_conserves. Qed.
 Check C01_tree_conserves :
   forall (key : string) (bs : list dblock),
-    Forall (fun b => plain_items b = true) bs ->
     tcontent (key_parent key) (spec_tree key bs) = bscontent (key_parent key) bs.
 Print Assumptions C01_tree_conserves.
 
 (* ... and so do the blocks written for it. *)
 Theorem C01_written_conserves :
   forall (key : string) (bs : list dblock),
-    Forall (fun b => plain_items b = true) bs ->
     flat_map gcontent (project (key_parent key) (spec_tree key bs)) = bscontent (key_parent key) bs.
 Proof. exact spec_written_conserves. Qed.
 Check C01_written_conserves :
   forall (key : string) (bs : list dblock),
-    Forall (fun b => plain_items b = true) bs ->
     flat_map gcontent (project (key_parent key) (spec_tree key bs)) = bscontent (key_parent key) bs.
 Print Assumptions C01_written_conserves.
 
@@ -57,7 +54,14 @@ Example C01_written_example :
   let bs := [DHeader (0,1) 2 [Str "t"]; DPara (2,3) [Str "p"];
              DBList [[DHeader (4,5) 1 [Str "i"]; DCode (5,7) None "c"]; []; [DOList [[DPara (8,9) [Str "x"]]]]];
              DQuote (10,12) [DRule (10,11); DPara (11,12) [Str "q"]]] in
-  Forall (fun b => plain_items b = true) bs /\
   flat_map gcontent (project "" (spec_tree "k" bs)) =
   [CI [Str "t"]; CI [Str "p"]; CI [Str "i"]; CC None "c"; CI [Str "x"]; CR; CI [Str "q"]].
-Proof. cbn zeta. split; [repeat constructor | reflexivity]. Qed.
+Proof. reflexivity. Qed.
+
+(* items that do not start with text: a code block, then a list followed by a paragraph *)
+Example C01_written_example_no_text :
+  let bs := [DBList [[DCode (0,2) None "c"; DPara (2,3) [Str "p"]];
+                     [DBList [[DPara (3,4) [Str "x"]; DPara (4,5) [Str "y"]]]; DPara (5,6) [Str "z"]]]] in
+  flat_map gcontent (project "" (spec_tree "k" bs)) =
+  [CI []; CC None "c"; CI [Str "p"]; CI []; CI [Str "x"]; CI [Str "y"]; CI [Str "z"]].
+Proof. reflexivity. Qed.
